@@ -107,6 +107,7 @@ void OnlineVariance::reset()
   data_.clear();
   squaredData_.clear();
 
+  index_ = 0;
   sumOfData_ = 0;
   sumOfSquaredData_ = 0;
   average_ = std::numeric_limits<double>::quiet_NaN();
